@@ -99,8 +99,20 @@ SPACE = space()
 # ---------------------------------------------------------------- invariants
 
 
+def undefined_columns(model, m, shape, mask):
+    """observations at which Bayes' rule is 0/0: every source the mask leaves active has a stored weight of
+    exactly zero there (per-frame weights of a one-hot start); no posterior is defined for them."""
+    try:
+        w = np.asarray(M.weight_full(model, m, shape), dtype=float)
+    except Exception:  # noqa
+        return None
+    if mask is not None:
+        w = w * mask
+    return w.sum(-2) == 0
+
+
 def check_distribution(aff, shape, what, K, eps=0.0, mask=None, exact_zero=True,
-                       skip_frames=()):
+                       skip_frames=(), undefined=None):
     aff = np.asarray(aff)
     if aff.shape != tuple(shape):
         return f'{what}: shape {aff.shape} != documented {tuple(shape)}'
@@ -113,6 +125,8 @@ def check_distribution(aff, shape, what, K, eps=0.0, mask=None, exact_zero=True,
     if (aff < 0).any() or (aff > 1 + slack).any():
         return f'{what}: values outside [0, 1] (min {aff.min()!r}, max {aff.max()!r})'
     s = aff.sum(-2)
+    if undefined is not None and undefined.any():
+        s = np.where(undefined, 1.0, s)         # Bayes' rule is 0/0 there: range and mask zeros only
     if len(skip_frames):
         s = np.delete(s, list(skip_frames), axis=-1)
         if mask is not None:
@@ -247,7 +261,7 @@ def run_config(key):
         a.setflags(write=False)
     trace = []
     _verif.clear()
-    _verif.register(lambda **kw: trace.append((kw['iteration'], np.array(kw['affiliation']))))
+    _verif.register(lambda **kw: trace.append((kw['iteration'], np.array(kw['affiliation']), kw['model'])))
     try:
         m = M.fit(model, c['data'], c['init'], p['iterations'], **c['opts'])
         post = M.predict(model, m, c['data']) if c['mask'] is None else \
@@ -264,18 +278,21 @@ def run_config(key):
     # with an inline aligner the rows handed to the M-step are re-ordered on purpose: the class-indexed
     # mask then no longer refers to the same rows, only the distribution property is judged there
     aligned = p['aligner'] in ('greedy', 'dhtv')
-    for it, aff in trace[1:]:
+    onehot = p['start'] == 'onehot'     # the only start from which exactly-zero weights are legitimate
+    for (it, aff, _), (_, _, m_prev) in zip(trace[1:], trace[:-1]):
         mask_t = None if aligned else c['mask']
         skip_t = c['skip']
         if aligned and c['mask'] is not None:
             skip_t = tuple(sorted(set(skip_t) | set(np.where(~c['mask'].any(-2).reshape(-1, N).all(0))[0].tolist())))
         bad = check_distribution(aff, aff_shape, f'E-step result of iteration {it}', K,
                                  eps=c['eps'], mask=mask_t, exact_zero=(c['eps'] == 0),
-                                 skip_frames=skip_t)
+                                 skip_frames=skip_t,
+                                 undefined=undefined_columns(model, m_prev, aff_shape, c['mask']) if onehot else None)
         if bad:
             return viol(f'{model}: {bad}')
     bad = check_distribution(post, aff_shape, 'predict', K, eps=0.0, mask=c['mask'],
-                             skip_frames=c['skip'])
+                             skip_frames=c['skip'],
+                             undefined=undefined_columns(model, m, aff_shape, c['mask']) if onehot else None)
     if bad:
         return viol(f'{model}: {bad}', post)
     # (2) Bayes oracle
@@ -313,6 +330,39 @@ def run_config(key):
         if badm:
             return viol(badm)
     return ok(outcome=tol.digest(want), evals=1 + len(trace))
+
+
+LOGPDF_ALPHABET = (-1e5, -800.0, -1.0, 0.0, 3.0, 800.0, 1e5)
+WEIGHT_ROWS = {2: ((0.5, 0.5), (0.9, 0.1), (1.0, 0.0), (1e-10, 1 - 1e-10)),
+               3: ((1 / 3, 1 / 3, 1 / 3), (0.7, 0.2, 0.1), (0.5, 0.5, 0.0), (0.0, 1.0, 0.0), (1e-10, 0.5, 0.5 - 1e-10))}
+
+
+def run_routine(key):
+    """the shared posterior routine on one observation: every vector of log-densities over a small alphabet
+    that spans the exp() range, every activity pattern, weights incl. exact zeros, both clip settings."""
+    from pb_bss.distribution.mixture_model_utils import log_pdf_to_affiliation
+    K, L, maskbits, w, eps = key['K'], key['logpdf'], key['mask'], key['weight'], key['eps']
+    logp = np.array(L, dtype=float).reshape(K, 1)
+    pi = np.array(w, dtype=float).reshape(K, 1)
+    mask = None if maskbits is None else np.array(maskbits, dtype=bool).reshape(K, 1)
+    snap = logp.copy()
+    try:
+        got = log_pdf_to_affiliation(pi, logp, source_activity_mask=mask, affiliation_eps=eps)
+    except Exception as e:  # noqa
+        return viol(f'log_pdf_to_affiliation raised {e!r}')
+    if not np.array_equal(logp, snap):
+        return viol('log_pdf argument modified')
+    want = M.bayes(logp, pi, mask=mask, eps=eps)
+    defined = M.bayes(logp, pi, mask=mask).sum() > 0     # otherwise 0/0: no active class with weight > 0
+    bad = check_distribution(got, (K, 1), 'log_pdf_to_affiliation', K, eps=eps, mask=mask,
+                             exact_zero=(eps == 0),
+                             undefined=None if defined else np.array([True]))
+    if bad:
+        return viol(bad, got, want)
+    badm = tol.mismatch(got, want, tol.TIGHT, what='posterior routine vs Bayes rule')
+    if badm:
+        return viol(badm, got, want)
+    return ok(outcome=tol.digest(want))
 
 
 def run_mask_fit_predict(key):
@@ -511,6 +561,17 @@ def subchecks(tier, seed):
                     for mk in ('one_off', 'all_off_frame'):
                         for it in (1, 3):
                             yield (K, N, lead, mk, it, seed)
+    def routine_cases():
+        for K in (2, 3):
+            for L in itertools.product(LOGPDF_ALPHABET, repeat=K):
+                for mb in [None] + list(itertools.product((True, False), repeat=K)):
+                    for w in WEIGHT_ROWS[K]:
+                        for eps in (0.0, 1e-10):
+                            yield (K, L, mb, w, eps)
+    subs.append(Sub('posterior_routine', ('K', 'logpdf', 'mask', 'weight', 'eps'), routine_cases, run_routine,
+                    bound=dict(K=[2, 3], logpdf_alphabet=list(LOGPDF_ALPHABET), masks='all activity patterns',
+                               weights={str(k): [list(r) for r in v] for k, v in WEIGHT_ROWS.items()},
+                               eps=[0.0, 1e-10]), exhaustive=True))
     subs.append(Sub('fit_predict_with_mask', ('K', 'N', 'lead', 'mask', 'it', 'seed'),
                     mfp_cases, run_mask_fit_predict))
 
